@@ -109,8 +109,12 @@ class Level(metaclass=abc.ABCMeta):
                 raise ValueError('Parent or key required')
             LOGGER.debug("Determining implicit self key as parent's last listing")
             self._key = self._parent.list().last
-        if self._parent and self._key not in self._parent.list():
-            raise Level.Invalid(f'Invalid level key {self._key}')
+        if self._parent:
+            listing = self._parent.list()
+            if self._key not in listing:
+                raise Level.Invalid(f'Invalid level key {self._key}')
+            # adopt the listed spelling of an equal key (PEP 440: 1.0 == 1.0.0) - the registry addresses by text
+            self._key = listing[listing.index(self._key)]
         return self._key
 
     @abc.abstractmethod
